@@ -8,6 +8,7 @@ import json
 from ..kernel import HarnessError
 
 PID = "C17"
+USES_GENERATOR = False
 LEVEL = "exploration"
 RULE = ("every ordered sequence of <=3 (thorough 4) plugins from a menu of 9 plugin instances (bearer, API key in header / header named Authorization / query / "
         "cookie, extra headers disjoint / case-variant overlapping, OAuth2 without / with refresh), used directly (length 1) and wrapped in CompositeAuth, "
